@@ -44,6 +44,22 @@ def kani_counterexample(scratch, harness, stubbed, timeout_s=900):
                     ts = re.findall(r'(#\[test\]\s*fn ' + test_name + r'\w*\(\)\s*\{.*?\n\})', t, re.S)
                     if ts:
                         res['concrete_values'] = '\n'.join(ts)[:8000]
+        # Kani 0.68 wraps a long check description over several lines, which breaks out of the `///` comment it writes: re-comment
+        d = os.path.dirname(scratch)
+        for f in os.listdir(d):
+            if f.endswith('.rs'):
+                lines = open(os.path.join(d, f)).read().split('\n')
+                fixed, in_doc = [], False
+                for l in lines:
+                    if l.startswith('/// Check for `'):
+                        in_doc = l.count('"') % 2 == 1
+                    elif in_doc:
+                        if l.count('"') % 2 == 1:
+                            in_doc = False
+                        l = '/// ' + l
+                    fixed.append(l)
+                if fixed != lines:
+                    open(os.path.join(d, f), 'w').write('\n'.join(fixed))
         cmd2 = ['timeout', str(timeout_s), 'cargo', 'kani', 'playback', '-Z', 'concrete-playback', '--', test_name]
         p2 = subprocess.run(cmd2, cwd=scratch, env=env, stdout=subprocess.PIPE, stderr=subprocess.STDOUT, text=True)
         res['native_cmd'] = ' '.join(cmd2)
